@@ -86,7 +86,7 @@ Proof. eexists. vm_compute. split; reflexivity. Qed.
    whenever it finishes, the reference semantics has the same outcome — same tree, same final
    position / stack / tags, same furthest-failure record, same "undefined rule" — it never
    reaches an inconsistent state (pop of an empty checkpoint or rule stack), and it returns with
-   every checkpoint, saved atomic depth and rule frame released. Hypothesis: a silent rule is
+   every checkpoint, saved atomic depth and rule frame released. Side condition: a silent rule is
    not `$` or `!` (grammar text allows one modifier per rule; necessity: InterpProof.
    silent_compound_differs). Proof: InterpProof.v (simulation by induction on fuel). *)
 Theorem C05_interpreter_refines_semantics : forall g,
